@@ -41,6 +41,10 @@ class Boom(Exception):
     pass
 
 
+class Quit(BaseException):
+    """contexts are also left by exceptions that are not `Exception`s (KeyboardInterrupt, GeneratorExit, SystemExit)"""
+
+
 class SettingsMonitor:
     """Always-on monitor of every settings context entered anywhere in the process."""
 
@@ -145,7 +149,7 @@ def gen_program(fl, rnd, depth, max_depth, keysets=None):
             k = rnd.choice(KEYS)
             steps.append(("assign", k, values(fl, rnd, k, True)))
         elif c < 0.8 and depth > 0:
-            steps.append(("raise",))
+            steps.append(("raise",) if rnd.random() < 0.75 else ("quit",))
         else:
             steps.append(("probe",))
     return steps
@@ -205,8 +209,8 @@ class Runner:
                             self.execute(body, model)
                         finally:
                             model.update(saved)
-                except Boom:
-                    self.ctx.hit("exception_crossed_a_context")
+                except (Boom, Quit) as ex:
+                    self.ctx.hit("exception_crossed_a_context" if isinstance(ex, Boom) else "base_exception_crossed_a_context")
                     if not catch:
                         raise
                 self.probe_helpers(model)
@@ -215,6 +219,8 @@ class Runner:
                 model[st[1]] = st[2]
             elif st[0] == "raise":
                 raise Boom()
+            elif st[0] == "quit":
+                raise Quit()
             else:
                 self.probe_helpers(model)
 
@@ -224,7 +230,7 @@ class Runner:
         try:
             try:
                 self.execute(prog, model)
-            except Boom:
+            except (Boom, Quit):
                 self.ctx.hit("exception_reached_top")
             self.probe_helpers(model)
         finally:
@@ -255,7 +261,7 @@ def run(ctx):
         combos = [(a, b, fault) for a in subsets for b in subsets for fault in ("none", "inner", "outer", "inner-caught")]
         for i, rnd in ctx.cases("exhaustive", len(combos)):
             a, b, fault = combos[i]
-            inner_body = [("probe",)] + ([("raise",)] if fault.startswith("inner") else [])
+            inner_body = [("probe",)] + ([("raise",) if i % 3 else ("quit",)] if fault.startswith("inner") else [])
             outer_body = [("assign", rnd.choice(KEYS), values(fl, rnd, rnd.choice(["decimals"]), True))][:0] + [("ctx", {k: values(fl, rnd, k, True) for k in b}, inner_body, fault == "inner-caught"), ("probe",)] + ([("raise",)] if fault == "outer" else [])
             prog = [("ctx", {k: values(fl, rnd, k, True) for k in a}, outer_body, False), ("probe",)]
             runner.run_program(prog)
@@ -295,7 +301,7 @@ def run(ctx):
         reach.report(ctx)
     ctx.exhaustive = True
     ctx.extra["exhaustive_space"] = "nesting depth 2 over all 28x28 single/double key subsets x 4 exception placements; 7x7 (named, assigned) pairs x {normal, exception}"
-    ctx.require("hook:Settings.context", "event:enter", "event:exit:normal", "event:exit:exception", "exception_crossed_a_context", "assign:named", "assign:unnamed", "depth:2", "depth:3")
+    ctx.require("hook:Settings.context", "event:enter", "event:exit:normal", "event:exit:exception", "exception_crossed_a_context", "assign:named", "assign:unnamed", "depth:2", "depth:3", "base_exception_crossed_a_context")
 
 
 def passive(ctx, fl, probe):
